@@ -137,7 +137,7 @@ def run_check(pm, prop, tier, verbose):
         if r.obligations and not r.undecided_reason:
             if getattr(r, "pre_sat", "sat") == "unsat":
                 checker_errors.append(f"{r.contract.qualname}: precondition unsatisfiable (vacuous contract)")
-            if canaries and all(o.status == "proved" for o in canaries):
+            if canaries and all(o.status == "proved" for o in canaries) and not r.contract.exit_unreachable:
                 checker_errors.append(f"{r.contract.qualname}: every exit is unreachable under the contract (vacuous)")
             vac = {"pre": getattr(r, "pre_sat", "?"), "canaries_refuted_or_open": sum(o.status != "proved" for o in canaries), "canaries": len(canaries)}
         funcs.append({
